@@ -1,9 +1,10 @@
 """C07 (arithmetic part) — the two deadline <-> remaining-lifetime conversions of the append-only log."""
 from props import aof_common
 
-THEOREMS = ["Slock.C07A.deadline_seconds", "Slock.C07A.never_renews_seconds", "Slock.C07A.seconds_overflow_loses_hold",
-            "Slock.C07A.deadline_minutes", "Slock.C07A.minutes_extends_by_60", "Slock.C07A.minutes_overflow_loses_hold",
-            "Slock.C07A.deadline_ms_restarts_period", "Slock.C07A.deadline_ms_renewed", "Slock.C07A.unlimited_unchanged"]
+THEOREMS = ["Slock.C07A.deadline_seconds", "Slock.C07A.deadline_seconds_saturated", "Slock.C07A.never_renews_seconds",
+            "Slock.C07A.seconds_overflow_saturates", "Slock.C07A.deadline_minutes", "Slock.C07A.minutes_extends_by_60",
+            "Slock.C07A.minutes_overflow_saturates", "Slock.C07A.deadline_ms_restarts_period", "Slock.C07A.deadline_ms_renewed",
+            "Slock.C07A.unlimited_unchanged"]
 FINISH = {"level": "proof", "assumptions": [
     "the conversions (Model/Aof.lean pushCommandTime, pushAge, writeRemaining, skippedAt, loadRemaining) are hand-written mirrors of AofChannel.Push, Aof.GetAofLockExpriedTime, the filter in LoadAofFile and Aof.GetLockCommandExpriedTime; tied by the aofdeadline differential (real Push -> real writer -> real LoadAofFile -> real GetLockCommandExpriedTime)",
     "engineDeadline mirrors LockManager.AddLock (lock.go 566-577); the harness computes the original deadline with the same formula (the engine's own expiry timing is C06's business)",
